@@ -96,31 +96,6 @@ Definition aop_usize (o : aop) : Prop :=
   | ARealloc _ _ n => usize n
   | _ => True
   end.
-(* domain of the partial theorem: no zero-size alloc, no size within SIZE+ALIGN of 2^64 *)
-Definition aop_dom (c : acfg) (o : aop) : Prop :=
-  match o with
-  | AAlloc _ n => 0 < n /\ n + a_size c + a_align c <= two64
-  | ARealloc _ _ n => 0 <= n /\ n + a_size c + a_align c <= two64
-  | _ => True
-  end.
-
-(* full-strength statement for the arena: every history of in-range sizes keeps the live blocks
-   in bounds, aligned and pairwise disjoint *)
-Definition arena_safe_full : Prop :=
-  forall c ops s live, acfg_ok c -> Forall aop_usize ops ->
-    arun c (arena_init, []) ops = Some (s, live) ->
-    good_blocks (a_base c) (a_size c) (a_align c) live.
-(* the same restricted to sizes that cannot wrap (still allowing alloc(0)) *)
-Definition arena_safe_nowrap : Prop :=
-  forall c ops s live, acfg_ok c ->
-    Forall (fun o => match o with
-                     | AAlloc _ n | ARealloc _ _ n => 0 <= n /\ n + a_size c + a_align c <= two64
-                     | _ => True end) ops ->
-    arun c (arena_init, []) ops = Some (s, live) ->
-    good_blocks (a_base c) (a_size c) (a_align c) live.
-(* a history of valid calls never trips a run-time check *)
-Definition arena_total_full : Prop :=
-  forall c ops, acfg_ok c -> Forall aop_usize ops -> arun c (arena_init, []) ops <> None.
 
 (* =====================================================================================
    Stack histories.  The live list is a stack (newest first); [SDealloc i] of a block that is
@@ -190,17 +165,6 @@ Definition scfg_ok (c : scfg) : Prop :=
 
 Definition sop_usize (o : sop) : Prop :=
   match o with SAlloc n | SRealloc _ n => usize n | _ => True end.
-Definition sop_dom (c : scfg) (o : sop) : Prop :=
-  match o with
-  | SAlloc n | SRealloc _ n => 0 <= n /\ n + s_size c + s_align c + STACK_HEADER_SIZE <= two64
-  | _ => True
-  end.
-
-Definition stack_safe_full : Prop :=
-  forall c ops s live, scfg_ok c -> Forall sop_usize ops ->
-    srun c (stack_init, []) ops = Some (s, live) ->
-    good_blocks (s_base c) (s_size c) (s_align c) live.
-
 (* =====================================================================================
    Pool histories.  [PWrite i v]: the client overwrites the first word of live chunk i (the word
    the allocator uses as free-list link while the chunk is free).
@@ -266,20 +230,6 @@ Definition is_chunk (c : pcfg) (a : Z) : Prop := exists i, 0 <= i < p_count c /\
 Definition pool_good (c : pcfg) (live : list blk) : Prop :=
   Forall (fun b => is_chunk c (b_addr b) /\ 0 < b_size b <= p_chunk c) live /\
   NoDup (map b_addr live).
-
-Definition pool_safe_full : Prop :=
-  forall c ops s live, pcfg_ok c -> Forall pop_usize ops ->
-    prun c (pool_init, []) ops = Some (s, live) -> pool_good c live.
-
-(* domain of the partial theorem: every [deallocall] of the history happens on a pool that a
-   first successful-size alloc has already initialised *)
-Fixpoint prun_dom (c : pcfg) (st : pstate * list blk) (ops : list pop) : Prop :=
-  match ops with
-  | [] => True
-  | o :: r =>
-      (o = PDeallocAll -> p_initialized (fst st) = true) /\
-      match pstep c st o with None => True | Some st' => prun_dom c st' r end
-  end.
 
 (* the free list as the allocator sees it: head -> a1 -> a2 -> ... -> nil through the link words *)
 Fixpoint flist (m : mem) (head : Z) (l : list Z) : Prop :=
